@@ -29,7 +29,9 @@
 #include <aws/common/atomics.h>
 #include <aws/common/clock.h>
 #include <aws/common/hash_table.h>
+#include <aws/common/logging.h>
 #include <aws/common/mutex.h>
+#include <aws/common/priority_queue.h>
 #include <aws/common/system_info.h>
 
 /* ---- ghost state ---- */
@@ -54,12 +56,23 @@ struct aws_hash_element *g_mt_stack_elem;   /* element of tracer->stacks handed 
 int g_mt_stack_created;                     /* ... and whether it was new */
 bool g_mt_stack_on;                         /* switch for the clauses about the stack record (on in the units that enforce track) */
 
+/* dump: the one priority queue in use, its length, the local table of per-stack totals, the tracer being dumped */
+const struct aws_priority_queue *g_mt_pq;
+size_t g_mt_pq_size;
+const struct aws_hash_table *g_mt_stack_info;
+const void *g_mt_tracer;
+bool g_mt_dump_stacks; /* tracer->level == AWS_MEMTRACE_STACKS */
+size_t g_mt_foreach_calls;
+
 #define MT_GHOST_RESET()                                                                                               \
     do {                                                                                                               \
         GHOST_RESET_COMMON();                                                                                          \
         GHOST_RESET_ALLOC();                                                                                           \
         g_mt_locked = false;                                                                                           \
         g_mt_stack_on = false;                                                                                         \
+        g_mt_pq = NULL;                                                                                                \
+        g_mt_stack_info = NULL;                                                                                        \
+        g_mt_foreach_calls = 0;                                                                                        \
         g_mt_lock_calls = 0;                                                                                           \
         g_mt_found = NULL;                                                                                             \
         g_mt_released = NULL;                                                                                          \
@@ -127,6 +140,20 @@ struct aws_allocator *aws_default_allocator(void)
 __CPROVER_requires(1)
 __CPROVER_assigns()
 __CPROVER_ensures(__CPROVER_pointer_equals(__CPROVER_return_value, &g_mt_default_allocator))
+;
+
+/* calloc of the bookkeeping allocator (contracts/allocator.h states "zeroed" for one witness byte g_j; the tracer's
+ * 24-byte records need all three words): ASSUMED as aws_mem_calloc's contract, used as
+ * --replace-call-with-contract aws_mem_calloc/mt_book_calloc */
+void *mt_book_calloc(struct aws_allocator *allocator, size_t num, size_t size)
+__CPROVER_requires(allocator == &g_mt_default_allocator)
+__CPROVER_requires(num > 0 && size > 0 && !__CPROVER_overflow_mult(num, size))
+__CPROVER_assigns()
+__CPROVER_ensures(__CPROVER_is_fresh(__CPROVER_return_value, num * size))
+__CPROVER_ensures(num * size == 3 * sizeof(uint64_t) ==>
+    (((const uint64_t *)__CPROVER_return_value)[0] == 0 && ((const uint64_t *)__CPROVER_return_value)[1] == 0 &&
+     ((const uint64_t *)__CPROVER_return_value)[2] == 0))
+__CPROVER_ensures(g_j < num * size ==> ((const uint8_t *)__CPROVER_return_value)[g_j] == 0)
 ;
 
 /* ---- the wrapped (traced) allocator: the client contracts of contracts/allocator.h plus a record of the request, so
